@@ -73,7 +73,7 @@ func decoy(k, j int) string {
 	return fmt.Sprintf("\r\n\r\nGET /decoy-%d-%d HTTP/1.1\r\nHost: x\r\nConnection: keep-alive\r\n\r\n", k, j)
 }
 
-var sizes = []int{0, 1, 50, 700, 8191, 8192, 8193, 9999, 10000, 10001, 3 * 8192, 20000}
+var sizes = []int{0, 1, 50, 700, 1059, 4096, 8191, 8192, 8193, 9999, 10000, 10001, 3 * 8192, 20000}
 
 func genBody(r *rand.Rand, k, size int) []byte {
 	if size == 0 {
@@ -295,8 +295,13 @@ func TestC02(t *testing.T) {
 		rnd := r.Rand("case", i)
 		c := cfg{Stream: rnd.Intn(2) == 0, RMU: rnd.Intn(2) == 0, Expect: expects[rnd.Intn(len(expects))], Program: programs[rnd.Intn(len(programs))],
 			K: []int{0, 1, 100, 8191, 8192, 8193, 9000}[rnd.Intn(7)], Frag: frags[rnd.Intn(len(frags))], NoPreParse: rnd.Intn(2) == 0, TrailingGarbage: rnd.Intn(6) == 0}
-		if rnd.Intn(3) == 0 {
+		switch rnd.Intn(6) {
+		case 0, 1:
 			c.MaxBody = 10000
+		case 2:
+			// a limit below the 8 KiB prefetch: with StreamRequestBody a body of limit < Content-Length <= 8 KiB
+			// is only partly prefetched and still handed to the handler
+			c.MaxBody = []int{1024, 100, 4000}[rnd.Intn(3)]
 		}
 		gen, stream := genStream(rnd, c)
 		ref, _ := h1.ParseRequests(stream)
